@@ -225,5 +225,45 @@ CHECKS["C10"].update(category="proof",
          "TdmsWriter.defragment plus the real source-vs-copy oracle.",
     technique="Lean 4 proof (structure of the defragmented session, value/property preservation incl. float widening) + byte-equality correspondence + content oracle")
 
+CHECKS["C01"].update(
+    text="read_encode_multi (whole-file theorem): for every well-formed encoding of ANY number of segments with standard (non-DAQmx) indexes and contiguous layout — segments "
+         "without metadata, incremental object lists, 'matches previous' indexes, changed value counts, objects appearing / disappearing / re-appearing, properties "
+         "overwritten in later segments, byte order chosen per segment, padding, any number of chunks, string and all fixed-width types — readFile (encodeFile e) succeeds "
+         "and its content (objects in order, types, canonical properties, values) equals denote e; read_metadata_multi / read_data_multi give the reader state (segment "
+         "positions = sums of byte lengths, object lists = the spec's active lists) and the chunk stream; denote_multi_values gives the values in closed form. Field-width side "
+         "conditions (FileFits, < 2^63 bytes) and 'only channels carry data' are explicit, decidable, shown necessary by kernel-checked counterexamples and satisfied by a "
+         "7-segment example. Layer theorems for arbitrary sizes and byte orders additionally cover interleaved column selection and DAQmx index round trips; "
+         "read (encode e) = denote e for interleaved and DAQmx DATA and for the length-unknown marker is NOT one theorem: there it is the correspondence of the executable "
+         "model with the real reader and the spec oracle (denote) on every generated file.",
+    technique="Lean 4 proof (whole-file theorem by induction over segments on top of parser/printer round trips and the C02 refinement) + executable model correspondence + spec oracle")
+CHECKS["C05"].update(category="proof",
+    text="operations_position_independent: the result of read_data, slices, integer indexing and next() on channel-level and file-level chunk iterators is the same from any "
+         "two states of the shared file (position, trace) — every path seeks absolutely before it reads; history_independent / read_history_independent / "
+         "slice_history_independent: after ANY finite history of operations the output of a window or slice read equals its output on a freshly opened file; "
+         "cache_sound_invariant + index_history_independent: the one-chunk cache only ever holds the chunk it claims, so integer indexing after any history equals "
+         "indexing a fresh file (for files satisfying IndexWF: no DAQmx segment — the DAQmx case is index_history_independent_partial, conditional on chunk locality); "
+         "iterator_complete / chan_iterator_complete_fresh / file_iterator_complete_fresh: an iterator advanced along any interleaved history yields exactly what an "
+         "uninterrupted fresh iterator yields. IndexWF is not derived from readMetadata's output. The model's state machine is tied to one real TdmsFile.open object "
+         "under random operation histories; the oracle replays every operation on a fresh file.",
+    technique="Lean 4 proof (relational Hoare logic on the file-state monad, invariant over operation histories) + history correspondence + fresh-file oracle")
+CHECKS["C19"].update(category="proof",
+    text="window_io_bound / window_io_bound_contiguous: every trace entry appended by read_raw_data_for_channel lies in the 4 tag bytes of a window segment or inside the "
+         "planned chunk range of that segment; for contiguous fixed-width data inside the requested channel's bytes of one planned chunk — other channels' bytes are never "
+         "fetched; the byte budget is sum(4 + chunk size x planned chunks), independent of the file size; index_io_bound / index_budget_le: an index read touches one tag "
+         "and one chunk (<= 4 + chunk size bytes); cache_hit_no_io: a cache hit performs no I/O. Exclusions stated in the theorems: string channels (offset tables), "
+         "interleaved segments are bounded by the union of planned chunks, bounds are relative to segPlan (C04 proves segPlan selects exactly the overlapping chunks), "
+         "segment well-formedness is assumed. The model's I/O trace equals the byte ranges seen by a recording stream under the real code; the bound formula is evaluated "
+         "on the real trace.",
+    technique="Lean 4 proof (Hoare logic over the model's I/O trace) + trace correspondence + bound oracle on the real trace")
+CHECKS["C09"].update(
+    text="readMetadata_with_index_eq: for every encoding in the decidable class indexClass (any number of segments, all index kinds incl. DAQmx, both byte orders; implied by "
+         "wellFormed + sizesFit), walking the index (encodeIndex e) with the data file's size yields the SAME reader state (segments, positions, chunk counts, objects, "
+         "metadata, errors) as walking the data file; twin_files_same_metadata: the same for arbitrary bytes under the metadata-independence predicate; "
+         "readFile_with_index_eq / openFile_with_index_eq; index_only_same_metadata, index_only_unknown_length_raises, index_only_refuses_data (over any operation sequence); "
+         "readMetadata_with_index_truncated: with the data file cut at ANY offset the two walks give the same segments / objects / clamp / incomplete flag (version "
+         "bookkeeping may differ when the cut falls inside the last lead-in — kernel-checked witnesses); index_positions. The model's index walk is tied to the real reader "
+         "by correspondence; the with/without-index oracle runs on the real code, also with the data file cut short.",
+    technique="Lean 4 proof (two-walk loop invariant, metadata independence of the parser) + differential correspondence + with/without-index oracle")
+
 NOTES = ("Properties move from not_applicable to checks as their model, correspondence and theorems are built; a check is claimed at `proof` only when its "
          "headline theorems are registered in lean/obligations.json. See DESIGN.md.")
